@@ -8,6 +8,7 @@ Conformance (B1): every behaviour TLC enumerates is a schedule; a sys.settrace c
 threads at exactly those points and releases them in the schedule's order (deterministic replay, no
 racing); each call must return what it returns single-threaded and the cache must hold fresh parses.
 Thorough adds spec-independent pre-emption at every Python line of one thread (1 pre-emption)."""
+import json
 import multiprocessing as mp
 import os
 import zlib
@@ -251,6 +252,109 @@ def _line_preempt(args):
     return out
 
 
+COLD_CHILD = r'''
+import sys, threading, json
+sys.path.insert(0, %(repo)r)
+import soupsieve as sv
+import bs4
+K = %(k)d
+HOT = %(hot)r
+A = %(a)r
+B = %(b)r
+go_b, done_b = threading.Event(), threading.Event()
+res = {}
+cnt = [0]
+def tracer(frame, event, arg):
+    if 'soupsieve' not in frame.f_code.co_filename:
+        return None
+    if HOT and frame.f_code.co_name not in ('match', 'get_name', 'lower', 'css_unescape', 'process_custom', '_cached_css_compile', 'compile', '__init__', 'freeze'):
+        return None
+    def local(frame, event, arg):
+        if event == 'line':
+            cnt[0] += 1
+            if cnt[0] == K:
+                go_b.set()
+                done_b.wait(20)
+        return local
+    return local
+def a():
+    sys.settrace(tracer)
+    try:
+        res['a'] = ('ok', repr(sv.compile(A).selectors))
+    except BaseException as e:
+        res['a'] = ('exc', type(e).__name__ + ': ' + str(e)[:80])
+    finally:
+        sys.settrace(None)
+        go_b.set()
+def b():
+    go_b.wait(20)
+    try:
+        res['b'] = ('ok', repr(sv.compile(B).selectors))
+    except BaseException as e:
+        res['b'] = ('exc', type(e).__name__ + ': ' + str(e)[:80])
+    done_b.set()
+sys.setswitchinterval(1000)
+ta, tb = threading.Thread(target=a), threading.Thread(target=b)
+ta.start(); tb.start(); ta.join(30); tb.join(30)
+sv.purge()
+ref = {}
+for nm, p in (('a', A), ('b', B)):
+    try:
+        ref[nm] = ('ok', repr(sv.compile(p).selectors))
+    except BaseException as e:
+        ref[nm] = ('exc', type(e).__name__)
+print(json.dumps({'k': K, 'lines': cnt[0], 'res': res, 'ref': ref}))
+'''
+
+
+def _cold_child(args):
+    import subprocess
+    k, a, b, hot = args
+    env = dict(os.environ, PYTHONPATH=common.REPO)
+    p = subprocess.run(['/venv/bin/python', '-c', COLD_CHILD % {'repo': common.REPO, 'k': k, 'a': a, 'b': b, 'hot': hot}], capture_output=True, text=True, env=env, timeout=120)
+    try:
+        return json.loads(p.stdout.strip().splitlines()[-1])
+    except Exception:
+        return {'k': k, 'crash': (p.stdout + p.stderr)[-300:]}
+
+
+def _cold_part(chk, tier):
+    """the FIRST call in a process is a state of its own (whatever is initialised lazily is not initialised yet): every pre-emption
+    point of the very first compile in a fresh interpreter, with a second thread making its first call in the gap"""
+    import json as _json
+    globals()['json'] = _json
+    a = ':lang(en):dir(ltr):nth-child(2n+1 of p):-soup-contains(x) > b:nth-of-type(2)'
+    b = 'p:dir(rtl):-soup-contains-own(y):nth-last-child(2):lang(de), i:nth-last-of-type(1)'
+    jobs = []
+    totals = {}
+    for hot in (True, False):
+        probe = _cold_child((10 ** 9, a, b, hot))
+        total = probe.get('lines', 0)
+        if not total:
+            chk.machinery('cold-start probe failed: %r' % probe)
+            return
+        totals[hot] = total
+        # the functions through which shared objects are reached (token patterns' match / get_name, the memoised helpers, constructors):
+        # every line; everything else: every line in the thorough tier, every third in the quick tier
+        step = 1 if (hot or tier == 'thorough') else 3
+        jobs += [(k, a, b, hot) for k in range(1 + (common.SEED % step), total + 1, step)]
+    total = totals[False]
+    ks = jobs
+    with mp.get_context('fork').Pool(16) as pool:
+        outs = pool.map(_cold_child, jobs, chunksize=4)
+    for o in outs:
+        if 'crash' in o:
+            chk.machinery('cold-start child crashed: %s' % o['crash'][-200:])
+            continue
+        for nm in ('a', 'b'):
+            got, want = o['res'].get(nm), o['ref'].get(nm)
+            if got != want:
+                chk.violation('cold|%d|%s|%r' % (o['k'], nm, got), 'first calls in a fresh interpreter: thread %s got %r instead of %r when the first compile is pre-empted at line event %d of %d' % (
+                    nm, got, (want or ['?'])[0], o['k'], total), {'cfg': 'cold-start', 'group': 'cold start ' + str(got)[:50], 'k': o['k']})
+    chk.count(len(outs), traces=len(outs))
+    chk.notes['cold_start'] = {'line_events_of_the_first_compile': totals[False], 'of_which_in_shared_object_functions': totals[True], 'preemption_points_tried': len(jobs)}
+
+
 def main(tier):
     chk = common.Check('C14', tier)
     chk.assumptions += ['pre-emption is explored at the dispatcher call boundaries for all interleavings (TLC), and at every Python line with one pre-emption (thorough); races inside one bytecode or inside C code (lru_cache, re) are out of reach',
@@ -335,6 +439,14 @@ def main(tier):
             st = 1 if (x[0] == 'fragmatch' or (x[0] == 'compile' and ':--' in x[1])) and (y[0] == 'fragmatch' or (y[0] == 'compile' and ':--' in y[1])) else step
             for start in range(1 + (zlib.crc32(repr(x).encode()) % st), limit, 60 * st):
                 jobs.append((x, y, list(range(start, start + 60 * st, st))))
+        # deeply nested selectors (40 levels, far below the recursion budget): a thread parked in the middle of one holds many frames of the
+        # recursive descent - whatever the parser counts or stacks per PROCESS instead of per call shows when a second one starts
+        nest_a = ':is(' * 40 + 'a' + ')' * 40
+        nest_b = ':not(' * 40 + 'b' + ')' * 40
+        for (x, y) in ((('compile', nest_a), ('compile', nest_b)), (('compile', nest_b), ('compile', nest_a)), (('compile', nest_a), ('select', SELS[0]))):
+            allk = list(range(60, 9000, 83 if tier == 'quick' else 17))
+            for i in range(0, len(allk), 12):
+                jobs.append((x, y, allk[i:i + 12]))
         npre = 0
         for out in pool.imap_unordered(_line_preempt, jobs, chunksize=2):
             for (opa, opb, k, total), bad in out:
@@ -345,4 +457,5 @@ def main(tier):
         chk.count(npre, traces=npre)
         chk.add_distinct(npre)
         chk.notes['line_preemption_points'] = npre
+    _cold_part(chk, tier)
     return chk.finish()
